@@ -64,6 +64,10 @@ MUTS = [
   "tlsConfig.ClientAuth = tls.RequireAndVerifyClientCert", "tlsConfig.ClientAuth = tls.RequireAnyClientCert", "C19"),
  ("C20-remove-bound", "proxy/replication_stream_observer.go",
   "if idx >= maxObservedStreamIndex {", "if false && idx >= maxObservedStreamIndex {", "C20"),
+ ("C09-tombstone-survives-rejoin", "proxy/shard_manager.go",
+  "\t\tdelete(sed.manager.departedNodes, node.Name)", "\t\t_ = node.Name", "C09"),
+ ("C08-tombstone-survives-restart", "proxy/shard_manager.go",
+  "\t\tdelete(sed.manager.departedNodes, node.Name)", "\t\t_ = node.Name", "C08"),
 ]
 
 
